@@ -1,5 +1,5 @@
 import random, collections, sys
-from ex1 import *
+from design_probe_rules import *
 rnd = random.Random(int(sys.argv[1]) if len(sys.argv)>1 else 0)
 CONSTS=["0","1","2","3","4","6","-1","-2","0.5","2.5","-0.5","12"]
 def atom():
